@@ -27,7 +27,8 @@ Record mstate := {
   m_dq : list Z;
   m_tz : Z;
   m_ghi : bool;              (* the model's feature list contains ghi *)
-  m_reloaded : bool          (* the object came from from_json and has not been fitted since *)
+  m_reloaded : bool          (* the object came from from_json and has not been fitted since (bookkeeping only:
+                                since /repo 4e082e66 a reloaded hourly object can be fitted again like any other) *)
 }.
 
 Inductive exn :=
@@ -59,10 +60,6 @@ Section Gate.
     if negb (is_baseline_of f (d_kind d)) then (s, Err TypeErr)
     else if nonempty (d_dq d) && negb ignore then (s, Err DataSufficiency)
     else if family_eqb f Hourly && m_ghi s && negb (d_ghi d) then (s, Err ValueMissingFeature)
-    else if family_eqb f Hourly && m_reloaded s then
-      (* as coded (known finding C04-K1): the scalers restored by from_dict cannot be refitted; the attempt
-         raises AttributeError after is_fitted was cleared and the new lists were assigned *)
-      ({| fitted := false; m_dq := d_dq d; m_tz := m_tz s; m_ghi := m_ghi s; m_reloaded := true |}, Err AttrErr)
     else
       ({| fitted := true;
           m_dq := d_dq d ++ (if poor d then [POOR_FIT] else []);
